@@ -61,10 +61,13 @@ def default_schema():
     per-token boosts (CharacterBoosts) with a Positions vector; tags: scorable
     KEYWORD with vector; n: sortable stored 8-bit NUMERIC (two precision tiers); so: stored only; rm: an
     indexed+stored+sortable field that histories may remove."""
-    from whoosh import fields, formats, analysis
+    from whoosh import fields, formats, analysis, columns
     space = analysis.SpaceSeparatedTokenizer()
     boosted = analysis.RegexTokenizer(r"\S+") | analysis.DelimitedAttributeFilter()
     return fields.Schema(
+        # pure column fields: neither indexed nor stored
+        cv=fields.COLUMN(columns.VarBytesColumn()),
+        cn=fields.COLUMN(columns.NumericColumn("i")),
         key=fields.ID(stored=True, unique=True, sortable=True),
         kind=fields.ID(stored=True),
         t=fields.TEXT(analyzer=space, phrase=True, chars=True, vector=True),
@@ -78,12 +81,12 @@ def default_schema():
 
 
 _VARIANTS = [
-    dict(t="alfa bravo", tb="alfa^2 bravo", tags="x y", n=3, so={"a": 1}, rm="rmx rmy"),
-    dict(t="bravo bravo charlie", tb="bravo charlie^1.5 bravo^3", tags="y", n=-7, so="s1", rm="rmy"),
-    dict(tb="charlie", tags="x x z"),
+    dict(t="alfa bravo", tb="alfa^2 bravo", tags="x y", n=3, so={"a": 1}, rm="rmx rmy", cv=b"v0", cn=7),
+    dict(t="bravo bravo charlie", tb="bravo charlie^1.5 bravo^3", tags="y", n=-7, so="s1", rm="rmy", cn=-2),
+    dict(tb="charlie", tags="x x z", cv=b"v2 long value"),
     dict(t="alfa", n=0, so=[1, 2], rm="rmx rmx"),
-    dict(t="charlie alfa bravo alfa", tb="alfa alfa^4", tags="z", n=100, rm="rmz"),
-    dict(t="bravo", tb="bravo^2 delta", tags="y z", n=3),
+    dict(t="charlie alfa bravo alfa", tb="alfa alfa^4", tags="z", n=100, rm="rmz", cv=b"", cn=0),
+    dict(t="bravo", tb="bravo^2 delta", tags="y z", n=3, cv=b"v5", cn=500),
     dict(t="alfa alfa alfa bravo", tags="x", n=-1, so="s6", rm="rmx"),
     dict(t="delta", tb="alfa bravo charlie delta", n=12, so=None),
 ]
